@@ -117,7 +117,14 @@ def main():
         "checks": checks,
         "not_applicable": na,
         "notes": "Repository defects found and repaired are listed in "
-                 "known_findings.json (status fixed) and DESIGN.md section 4.",
+                 "known_findings.json (status fixed) and DESIGN.md section 4. "
+                 "All stream-driven checks share the driver modes of DESIGN.md "
+                 "section 0 (next() vs for/break consumption, paused sibling "
+                 "schedules built before or after the observed one, late and "
+                 "repeated finalisation, finalize calls that must be rejected, "
+                 "bool-like flags, shuffled storage queries); the detection "
+                 "matrix for 52 own patches and 123 independently seeded "
+                 "changes is in DESIGN.md section 7.",
     }
     with open(os.path.join(ROOT, "MANIFEST.json"), "w") as f:
         json.dump(man, f, indent=1)
